@@ -435,6 +435,6 @@ META = {
             "every distribution of two triples over the default graph and two named graphs, through Graph, ConjunctiveGraph and Dataset, with the default-graph-union "
             "switch on and off; the dataset after the request is compared, up to fresh blank nodes, with an independent implementation of the SPARQL 1.1 Update "
             "semantics (WHERE evaluated once on the pre-state by the reference evaluator, deletions before insertions, WITH / USING / GRAPH templates, graph management).",
-    "note": "Small scope: 2 triples, 2 named graphs (+1 missing), requests of <=2 operations; missing graphs addressed with SILENT only; empty graphs not observed.",
+    "note": "Small scope: 2 triples, 2 named graphs (+1 missing), requests of <=2 operations; missing graphs addressed with SILENT only; empty graphs not observed. ~75 operations incl. WITH together with USING / USING NAMED and variable-free templates with blank nodes.",
     "technique": "exhaustive enumeration of update requests x dataset states against a reference implementation of SPARQL Update",
 }
